@@ -419,3 +419,81 @@ func r095(c *Ctx, r *R) {
 	}
 	r.Check(nOK >= 1 && nErr >= 1, "informer:both-paths", f.Pos(), "the timer is re-armed on success and on error", fmt.Sprintf("the informer timer is not re-armed on both paths (success: %d, error: %d): publishing stops", nOK, nErr))
 }
+
+func init() {
+	register(&Rule{ID: "R09.6", Props: []string{"C09"}, Floor: 5, Title: "the metric window's writer and reader agree on the ring cursor (Add writes then advances, Latest reads the previous slot); the store files a metric under its own name and peer", Run: r096})
+}
+
+func r096(c *Ctx, r *R) {
+	add := c.fn(r, "monitor/metrics", "Window.Add")
+	lat := c.fn(r, "monitor/metrics", "Window.Latest")
+	isWindowLoad := func(v ssa.Value) bool {
+		fl, _ := fieldLoad(v)
+		return fl != nil && fl.Name() == "window"
+	}
+	if add != nil {
+		var valStore, curStore *ssa.Store
+		instrs(add, func(i ssa.Instruction) {
+			st, ok := i.(*ssa.Store)
+			if !ok {
+				return
+			}
+			fl, base := fieldOfAddrValue(st.Addr)
+			if fl == nil {
+				return
+			}
+			if fl.Name() == "Value" && isWindowLoad(base) {
+				valStore = st
+			}
+			if fl.Name() == "window" {
+				if call, _ := originCall(st.Val); call != nil && nameMatches(callName(call.Common()), "(*container/ring.Ring).Next") && isWindowLoad(call.Common().Args[0]) {
+					curStore = st
+				}
+			}
+		})
+		okParam := valStore != nil && paramIndex(add, strip(valStore.Val)) == 1
+		r.Check(valStore != nil && curStore != nil && dominatesInstr(valStore, curStore) && okParam, "window:add-writes-then-advances", add.Pos(), "Add stores the metric in the current slot and then advances the cursor by one", "Window.Add no longer writes the given metric into the current slot and then advances the cursor by Next()")
+		r.Check(lockHeldAt(curStore, "wMu") && lockHeldAt(valStore, "wMu"), "window:add-locked", add.Pos(), "both steps happen under wMu", "Window.Add updates the ring outside wMu")
+	}
+	if lat != nil {
+		ok := false
+		instrs(lat, func(i ssa.Instruction) {
+			fa, isFA := i.(*ssa.FieldAddr)
+			if !isFA || fieldOfAddr(fa).Name() != "Value" {
+				return
+			}
+			if call, _ := originCall(fa.X); call != nil && nameMatches(callName(call.Common()), "(*container/ring.Ring).Prev") && isWindowLoad(call.Common().Args[0]) {
+				ok = true
+			}
+		})
+		r.Check(ok, "window:latest-reads-previous", lat.Pos(), "Latest reads the slot before the cursor (the last one written)", "Window.Latest does not read window.Prev().Value: it returns the oldest or an empty slot instead of the most recent metric")
+	}
+	sa := c.fn(r, "monitor/metrics", "Store.Add")
+	if sa != nil {
+		byNameKey, byPeerKey := false, false
+		instrs(sa, func(i ssa.Instruction) {
+			var key ssa.Value
+			switch x := i.(type) {
+			case *ssa.Lookup:
+				key = x.Index
+			case *ssa.MapUpdate:
+				key = x.Key
+			default:
+				return
+			}
+			fl, base := fieldLoad(key)
+			if fl == nil || paramIndex(sa, base) != 1 {
+				return
+			}
+			if fl.Name() == "Name" {
+				byNameKey = true
+			}
+			if fl.Name() == "Peer" {
+				byPeerKey = true
+			}
+		})
+		r.Check(byNameKey && byPeerKey, "store:keys", sa.Pos(), "a metric is filed under its own name and its own peer", "Store.Add does not index by the metric's own Name and Peer")
+		wa := findCalls(sa, false, "metrics.Window).Add")
+		r.Check(len(wa) == 1 && paramIndex(sa, wa[0].Common().Args[1]) == 1, "store:adds-given-metric", sa.Pos(), "the given metric is what is added to the window", "Store.Add adds something other than the given metric")
+	}
+}
